@@ -19,7 +19,7 @@ CLAIMED = {
              text="For programs without `!`: id counts and class counts before/after every close, and close_until with a counting condition whose iteration count is compared with a combinatorial bound (no wall clock).",
              note="Termination cannot be established by testing; a livelock is detected through the iteration bound only.", ref="3/C06"),
  "C03": dict(level="exploration", technique="metamorphic property testing: one fact set rendered into many API histories, final models compared up to isomorphism; idempotence of close",
-             text="Metamorphic testing: a generated fact set (ground atoms with nested terms over named generators) is rendered into a one-shot history and k permuted histories with intermediate closes, duplicated assertions and different generator creation orders; all final models must be isomorphic (generators matched by name) and a second close must change nothing.",
+             text="Metamorphic testing: a generated fact set (ground atoms with nested terms over named generators) is rendered into a one-shot history and k permuted histories with intermediate closes, duplicated assertions and different generator creation orders; all final models must be isomorphic (generators matched by name) and a second close must change nothing. Renderings may also suspend evaluation between assertions (close_until stopped after 1-4 evaluations); programs include relations with up to 5 columns.",
              note="Implementation-vs-implementation comparison; bounded (diverging) fact sets are discarded.", ref="3/C03"),
  "C07": dict(level="exploration", technique="two-phase property testing: trace-derived monotone conditions, homomorphism into the reference free model, resumption compared with the reference chase",
              text="Phase A records the state at every evaluation of the condition; a monotone condition over public queries that first turns true strictly inside the run is derived from the trace; phase B checks the return-value contract, containment of every stopping/observed state in the reference free model, a second close_until right after the early return (same condition: must return true at its first evaluation; or a condition that turns true later), and that close() after the early return(s) (plus further facts) reaches the free model.",
@@ -28,13 +28,13 @@ CLAIMED = {
              text="Every generated program (typed generator, wide profile: arities up to 9, constants, nullary predicates, enums; model programs) is compiled by the repository CLI; accepted programs must compile with rustc and link against the runtime in both build modes and run an empty history. In addition modules derived from the full surface grammar (models with member types/predicates/functions/rules, Mor types, dom/cod, morphism application, enums, named arguments; mostly well-typed by construction) must, when accepted, compile as a library in module mode and pass the component build.",
              note="Identifier pools avoid Rust keywords and generator-emitted names, as the property states. Two recorded findings (primed symbol names; sibling models sharing a member name) are excluded from generation by construction and demonstrated by replays.", ref="3/C09, 11.2"),
  "C10": dict(level="exploration", technique="mutation-based differential testing: single-defect mutants with by-construction verdicts + reference-free metamorphic relations",
-             text="Well-formed generated programs must be accepted; single-defect mutants (19 operators) must be rejected with an error whose class and line belong to the injected defect; alpha-renaming, declaration permutation, re-layout and unused declarations must preserve verdict and class.",
+             text="Well-formed generated programs must be accepted; single-defect mutants (19 operators) must be rejected with an error whose class and line belong to the injected defect; alpha-renaming, declaration permutation, re-layout and unused declarations must preserve verdict and class. Mutants are judged in a varied layout (comments with multi-byte characters before the defect) and must stay rejected when the well-formed rules of the original program are appended (rule-locality).",
              note="The reference verdict of a mutant is the set of admissible (class, line) pairs given by its operator, not a complete second implementation of the static semantics; fragment without models and casing errors.", ref="3/C10"),
  "C11": dict(level="exploration", technique="mutation-based fuzzing of source text (token, line-ending and byte level) with a diagnostic-grammar oracle",
              text="Corpus (programs of the typed generator, modules derived from the full surface grammar with and without semantic noise, repository theories and error tests) x 1-3 mutations per input; the compiler must exit 0 or 1, and every diagnostic must parse, name a line inside the file and print complete input lines containing it.",
              note="Inputs are valid UTF-8 of at most 8 KB; time-outs are inconclusive. Coverage-guided fuzzing of the compiler was rejected (DESIGN section 6).", ref="3/C11"),
  "C12": dict(level="fault_enumeration", technique="stateful property testing over edit/build histories with injected faults: enumerated kill points incl. torn writes (LD_PRELOAD), enumerated compiler faults (exit 1 early / after a partial write, death taking the build along, death by a signal alone)",
-             text="Histories over several versions of a theory with builds killed before their k-th file-system mutation or in the middle of the k-th write (k enumerated for short histories), and with every kind of rustc failure on every component; after every successful build the complete output and component trees are compared with a clean build; no-op builds must not touch the file system.",
+             text="Histories over several versions of a theory with builds killed before their k-th file-system mutation or in the middle of the k-th write (k enumerated for short histories), and with every kind of rustc failure on every component; after every successful build the complete output and component trees are compared with a clean build; no-op builds must not touch the file system. Versions of a theory are generated edits, minimal in-rule edits (two arguments of one atom swapped: the module text of a component build stays unchanged) and layout-/white-space-only edits.",
              note="Crash = process death between two file-system calls of the compiler (and inside rustc's output write); page-cache loss is not modelled. A stand-in for rustc produces byte-comparable libraries.", ref="3/C12"),
  "C13": dict(level="exploration", technique="differential testing of repeated compilations (threads, directories, cwd, environment) with byte comparison",
              text="Each program is compiled 12 times (module/component; repeat; RAYON_NUM_THREADS 1/2/3/16; different absolute and relative directories; different environment) and all generated files and digests are compared byte for byte. Modules derived from the full surface grammar (models, member types, morphisms) are compiled under the same variants.",
@@ -46,7 +46,7 @@ CLAIMED = {
              text="Static: for every generated program the emitted sub-rule families are parsed (flat-rule comment and index fields read per premise position) and every new/old labelling is checked to be admitted by exactly one sub-rule (none for all-old). Dynamic: on states reached by generated histories (before closes, inside partially run close_until, at the end) every rule is run once into a fresh ModelDelta; every match with a new tuple must be pushed exactly once and no all-old match at all. The static part also runs on modules derived from the full surface grammar (member relations, morphism rules).",
              note="Atoms and conclusions of a family are read from the flat-rule comments (whether the source rule was lowered correctly is C01/C02). Rules with empty premise and premise atoms the judge cannot interpret are skipped and counted.", ref="3/C16 and 11.2"),
  "C17": dict(level="exploration", technique="property-based testing of model programs against a reference chase with inheritance spelled out as rules (isomorphism after every close)",
-             text="Generated programs with one model declaration and rules over member atoms; generated acyclic morphism graphs, member/global facts and schedules (morphism rows, facts and closes interleaved); after every close the model must be closed and isomorphic to the reference chase in which inheritance along morphisms is an ordinary rule.",
+             text="Generated programs with one model declaration and rules over member atoms; generated acyclic morphism graphs, member/global facts and schedules (morphism rows, facts and closes interleaved); after every close the model must be closed and isomorphic to the reference chase in which inheritance along morphisms is an ordinary rule. Schedules also place closes between morphism rows before any fact exists, so that the dom/cod tables are split into an old and a new half when the facts arrive.",
              note="Member relations range over global types only; morphism graphs acyclic by construction; the trigger of the recorded finding (morphism rows after a close that saw facts) is excluded from generation and demonstrated by a replay.", ref="3/C17"),
  "C19": dict(level="exploration", technique="text comparison of module vs component outputs + differential execution of generated histories on both builds",
              text="Component sources are compared with the rule modules of the module build, environment structs/signatures/link names on both sides of the boundary are compared, and generated histories must give byte-identical transcripts on both drivers. The text comparison also runs on modules derived from the full surface grammar (models, member types, morphisms; stand-in rustc).",
